@@ -1,13 +1,16 @@
 (* C26 — a component iterator visits the instructions of the component's modules, in module order,
-   exactly as a module iterator visits each module with the corresponding skip list (and injections made
-   through it give the same encoded modules: that half is compared byte for byte by the harness, see
-   [cc_inj_same] in Check/CheckIter.v).  Statements only; proofs in Proofs/IterProofs.v.
+   exactly as a module iterator visits each module with the corresponding skip list, and injections made
+   through it give the same encoded modules as the same injections made through module iterators
+   (C26_injections_as_module_iterators over the method tables the translator regenerates from the two iterator
+   source files, C26_injection_method_tables_agree; the real encodings are also compared byte for byte by the
+   harness, [cc_inj_same] in Check/CheckIter.v).  Statements only; proofs in Proofs/IterProofs.v, IterInjProofs.v.
 
    The property holds of the code after the repair of defects D12 and D13 (no hypothesis on the skip
    map, the script or the shape of the modules). *)
+From Coq Require Import String.
 From Coq Require Import List NArith Bool.
 Import ListNotations.
-From Orca Require Import Util Iter CheckIter IterProofs.
+From Orca Require Import Util Iter CheckIter IterProofs GenIterInj IterInj IterInjProofs.
 Local Open Scope N_scope.
 
 (* Full strength: against the specification (concatenation over the modules of the C25 visit lists). *)
@@ -29,6 +32,55 @@ Print Assumptions C26_as_module_iterators.
 Theorem C26_single_module : forall mt skip k probe, mi_run mt skip k probe = ci_run [mt] [skip] k probe.
 Proof. exact mi_is_ci. Qed.
 Print Assumptions C26_single_module.
+
+(* Injection half.  The injection-side trait methods of ComponentIterator and ModuleIterator, as the translator
+   reads them from /repo's working tree on every check and normalises them (module reached, location fields,
+   statements applied to the LocalFunction / Module), are the same table; neither type overrides a default method
+   of Opcode / MacroOpcode. *)
+Theorem C26_injection_method_tables_agree :
+  table_eqb gen_comp_methods gen_mod_methods = true /\
+  gen_comp_default_impls = gen_mod_default_impls /\
+  (16 <=? N.of_nat (List.length gen_comp_methods)) = true.
+Proof. vm_compute. repeat split; reflexivity. Qed.
+Print Assumptions C26_injection_method_tables_agree.
+
+(* Hence, for EVERY interpretation [api] of a method table as the effect of the public injection calls on the module
+   the iterator stands in, every component, skip map, injection plan (the calls issued at each visited location)
+   and initial modules: the ComponentIterator run leaves exactly the modules that one ModuleIterator per module,
+   with that module's skip list and its part of the plan, leaves -- so the encoded modules are the same. *)
+Theorem C26_injections_as_module_iterators :
+  forall (M C B : Type) (api : method_table -> C -> N -> N -> M -> M) (enc : M -> B)
+         metas skips (plan : N -> N -> N -> list C) (st : list M),
+  forallb wf_meta metas = true -> List.length st = List.length metas ->
+  run_comp_plan M C api gen_comp_methods metas skips plan st = run_mods M C api gen_mod_methods 0 metas skips plan st
+  /\ encode_modules M B enc (run_comp_plan M C api gen_comp_methods metas skips plan st)
+     = encode_modules M B enc (run_mods M C api gen_mod_methods 0 metas skips plan st).
+Proof.
+  intros M C B api enc metas skips plan st Hwf Hlen. split.
+  - exact (comp_injection_as_module_iterators M C api _ _ metas skips plan st
+             (table_eqb_eq _ _ (proj1 C26_injection_method_tables_agree)) Hwf Hlen).
+  - exact (comp_injection_same_encoded_modules M C api B enc _ _ metas skips plan st
+             (proj1 C26_injection_method_tables_agree) Hwf Hlen).
+Qed.
+Print Assumptions C26_injections_as_module_iterators.
+
+(* what must not change: a module the plan has no call for is left as it was *)
+Theorem C26_untouched_module_unchanged :
+  forall (M C : Type) (api : method_table -> C -> N -> N -> M -> M) tbl mt skip (pl : N -> N -> list C) x,
+  (forall f i, pl f i = []) -> run_mod_plan M C api tbl mt skip pl x = x.
+Proof. exact run_mod_plan_untouched. Qed.
+Print Assumptions C26_untouched_module_unchanged.
+
+(* non-vacuity of the injection theorem: a concrete interpretation (a module is the log of the calls it received),
+   two modules, the second function of module 0 skipped, a call at every visited location *)
+Example C26_injection_nonvacuous :
+  let api := fun (tbl : method_table) (c : N) (f i : N) (x : list (N * N * N)) => x ++ [(c, f, i)] in
+  let metas := [[(0, 2); (1, 1)]; [(0, 1)]] in let skips := [[1]; []] in
+  let plan := fun m f i => [10 * m + i] in
+  forallb wf_meta metas = true /\
+  run_comp_plan _ _ api gen_comp_methods metas skips plan [[]; []]
+  = [[(0, 0, 0); (1, 0, 1)]; [(10, 0, 0)]].
+Proof. vm_compute. split; reflexivity. Qed.
 
 Theorem C26_checker_sound : forall c : ccase,
   agree26 c = true -> domain26 c = true -> holds26 c = cc_inj_same c.
